@@ -22,6 +22,7 @@ import OpyVerif.Generated.FindDefs
 import OpyVerif.Generated.PropsDefs
 import OpyVerif.Generated.SelectDefs
 import OpyVerif.Generated.HeapOpsDefs
+import OpyVerif.Generated.OpsDefs
 import OpyVerif.Generated.GrowDefs
 import OpyVerif.Generated.ClipLoopsDefs
 /-
@@ -197,6 +198,14 @@ def step (d : DState) (line : String) : DState × String :=
           | some f => showFs (zipW f x y)
           | none => match unOp eps c with
             | some g => showFs (x.map g) | none => "error")
+    | _, _, _ => (d, "bad-op")
+  | ["w.op", code, x, y] => match code.toNat?, parseFloats x, parseFloats y with
+    | some c, some x, some y =>
+      -- the translated `_evaluate` on a one-operator tree whose children hold `x` and `y`
+      let leaf (i a : Nat) (fl : Bool) : Opy.PNode := .mk i ⟨true, 0, a⟩ (some 0) fl .nil .nil
+      let t : Opy.PNode := .mk 0 ⟨false, c, 0⟩ none true (leaf 1 1 true) (leaf 2 2 false)
+      (d, match Opy.Gen.evalProg.run eps (fun i => if i == 1 then some x else if i == 2 then some y else none) t with
+          | some r => showFs r | none => "error")
     | _, _, _ => (d, "bad-op")
   | "t.eval" :: t :: envToks => match parseTree t with
     | some t =>
